@@ -50,8 +50,18 @@ def r2(cx):
     cx.floor("writer replacement in VLog::append", len(repl), 1)
     syncs = [c for c in b.calls if c.bb in b.live and f.call_may_reach(c, {"std::fs::File::sync_all", "std::fs::File::sync_data"})
              and not (c.names & {"vlog::VLogWriter::new"})]
+    # "there is no previous writer" edges: the None arm of a match on the guarded Option<VLogWriter>
+    from ..core import option_edges
+    none_edges = set()
+    for c in b.calls:
+        if c.bb in b.live and c.primary in ("std::option::Option::as_mut", "std::option::Option::as_ref", "std::option::Option::take") and c.target is not None:
+            if any("VLogWriter" in b.local_ty(a[1][0]) for a in c.args if a[0] in ("c", "m")):
+                e, sw = option_edges(b, c.dest[0], c.target)
+                if e:
+                    none_edges |= {s for s, lab in e.items() if lab == frozenset({"0"})}
     for i, line in repl:
-        ok = bool(syncs) and b.set_dominates([c.bb for c in syncs], i)
+        avoid = {c.bb for c in syncs} | none_edges
+        ok = bool(syncs) and i not in b.reachable_from([0], avoid=avoid)
         cx.check(ok, "the previous value-log file is fsynced before it is replaced", "rotation-without-sync", "%s:%d" % (b.file, line),
                  "VLog::append replaces the active writer without fsyncing the file it leaves: VLog::sync later syncs only the new file, so a table can be installed "
                  "whose pointers lead into a file that was never fsynced (lost at power failure)")
